@@ -19,37 +19,115 @@
  */
 /* VERIF-UNIT
 {
- "name": "link_proc_1k",
+ "name": "link_proc_64",
  "props": ["C10"],
  "level": "U",
- "tier": "wip",
+ "tier": "quick",
  "harness": "h_link_proc",
  "enforce": ["link_proc"],
- "defines": ["LP_BS=1024"],
+ "defines": ["LP_BS=64"],
  "sources": ["lib/ext2fs/dir_iterate.c"],
  "unwind": 6,
  "unwindset": {"h_link_proc.0": 257, "strncpy.0": 257},
- "unwind_reason": "link_proc is loop-free; only harness/stub loops are unwound: over the 255 possible name bytes (name_len is an 8-bit on-disk field) and, in the strncpy stub, over the constant block size; unwinding assertions on",
+ "unwind_reason": "link_proc is loop-free; only harness/stub loops are unwound: over the 255 possible name bytes (name_len is an 8-bit on-disk field); unwinding assertions on",
+ "timeout": 300,
  "functions": ["lib/ext2fs/link.c:link_proc", "lib/ext2fs/dir_iterate.c:ext2fs_get_rec_len", "lib/ext2fs/dir_iterate.c:ext2fs_set_rec_len"],
- "assumes": ["block size 1024 (unit link_proc_4k: 4096)", "the entry handed to the callback satisfies what ext2fs_process_dir_block checks before calling: 4-aligned offset < blocksize-8, rec_len >= 8, multiple of 4, offset+rec_len <= blocksize, name_len+8 <= rec_len, and it is not the checksum tail (the caller does not pass DIRENT_FLAG_INCLUDE_CSUM)", "ls->namelen == strlen(ls->name) <= 255, ls->err == 0, ls->sb == fs->super, callback blocksize == fs->blocksize (block directories; inline-data directories are not covered)", "libc strncpy is a stub in the unit with ISO C semantics at the ghost name index (other copied bytes arbitrary, nothing outside dst[0..n) written, destination range asserted to be inside the block)", "without the filetype feature the type byte of the new entry is only claimed to be 0 when the reused slot's stale type byte was 0 (always the case on a filesystem that never had the feature)"],
+ "assumes": ["SYMBOLIC BLOCK OF 64 BYTES (blocksize argument and fs->blocksize are 64): smaller than any legal ext2 block size; link_proc and the rec_len helpers depend on the block size only through comparisons with it (and the < 65536 branch), so this is evidence parametric in the block size, not a proof for 1024/4096-byte blocks, which CBMC cannot do (every typed access at a symbolic offset costs O(block size) and the SAT problem grows ~5x per doubling: 64 B 14 s, 128 B 70 s, 256 B > 250 s per clause)", "requested names are therefore limited to what fits (name_len <= 56); IN.namelen itself ranges over 1..255", "the entry handed to the callback satisfies what ext2fs_process_dir_block checks before calling: 4-aligned offset < blocksize-8, rec_len >= 8, multiple of 4, offset+rec_len <= blocksize, name_len+8 <= rec_len, and it is not the checksum tail (the caller does not pass DIRENT_FLAG_INCLUDE_CSUM)", "ls->namelen == strlen(ls->name) <= 255, ls->err == 0, ls->sb == fs->super, callback blocksize == fs->blocksize (block directories; inline-data directories are not covered)", "libc strncpy is an over-approximating stub in the unit: the whole block becomes arbitrary except that, at every byte position the code or the specification later reads (headers of E, of the entry behind E, of the tail slot, the frame byte k, name byte j of both entries), bytes outside dst[0..n) are unchanged and dst[j] has the ISO C value; destination range asserted to be inside the block", "without the filetype feature the type byte of the new entry is only claimed to be 0 when the reused slot's stale type byte was 0 (always the case on a filesystem that never had the feature)", "superblock feature words other than metadata_csum / filetype bits arbitrary"],
  "native": false
 }
 */
 /* VERIF-UNIT
 {
- "name": "link_proc_4k",
+ "name": "link_proc_128",
  "props": ["C10"],
  "level": "U",
- "tier": "wip",
+ "tier": "quick",
  "harness": "h_link_proc",
  "enforce": ["link_proc"],
- "defines": ["LP_BS=256"],
+ "defines": ["LP_BS=128"],
  "sources": ["lib/ext2fs/dir_iterate.c"],
  "unwind": 6,
  "unwindset": {"h_link_proc.0": 257, "strncpy.0": 257},
- "unwind_reason": "see link_proc_1k",
- "functions": ["lib/ext2fs/link.c:link_proc"],
- "assumes": ["block size 4096", "as link_proc_1k"],
+ "unwind_reason": "link_proc is loop-free; only harness/stub loops are unwound: over the 255 possible name bytes (name_len is an 8-bit on-disk field); unwinding assertions on",
+ "timeout": 400,
+ "functions": ["lib/ext2fs/link.c:link_proc", "lib/ext2fs/dir_iterate.c:ext2fs_get_rec_len", "lib/ext2fs/dir_iterate.c:ext2fs_set_rec_len"],
+ "assumes": ["SYMBOLIC BLOCK OF 128 BYTES (blocksize argument and fs->blocksize are 128): smaller than any legal ext2 block size; link_proc and the rec_len helpers depend on the block size only through comparisons with it (and the < 65536 branch), so this is evidence parametric in the block size, not a proof for 1024/4096-byte blocks, which CBMC cannot do (every typed access at a symbolic offset costs O(block size) and the SAT problem grows ~5x per doubling: 64 B 14 s, 128 B 70 s, 256 B > 250 s per clause)", "requested names are therefore limited to what fits (name_len <= 120); IN.namelen itself ranges over 1..255", "the entry handed to the callback satisfies what ext2fs_process_dir_block checks before calling: 4-aligned offset < blocksize-8, rec_len >= 8, multiple of 4, offset+rec_len <= blocksize, name_len+8 <= rec_len, and it is not the checksum tail (the caller does not pass DIRENT_FLAG_INCLUDE_CSUM)", "ls->namelen == strlen(ls->name) <= 255, ls->err == 0, ls->sb == fs->super, callback blocksize == fs->blocksize (block directories; inline-data directories are not covered)", "libc strncpy is an over-approximating stub in the unit: the whole block becomes arbitrary except that, at every byte position the code or the specification later reads (headers of E, of the entry behind E, of the tail slot, the frame byte k, name byte j of both entries), bytes outside dst[0..n) are unchanged and dst[j] has the ISO C value; destination range asserted to be inside the block", "without the filetype feature the type byte of the new entry is only claimed to be 0 when the reused slot's stale type byte was 0 (always the case on a filesystem that never had the feature)", "superblock feature words other than metadata_csum / filetype bits arbitrary"],
+ "native": false
+}
+*/
+/* VERIF-UNIT
+{
+ "name": "link_proc_256_c0",
+ "props": ["C10"],
+ "level": "U",
+ "tier": "thorough",
+ "harness": "h_link_proc",
+ "enforce": ["link_proc"],
+ "defines": ["LP_BS=256", "LP_CASE=0"],
+ "sources": ["lib/ext2fs/dir_iterate.c"],
+ "unwind": 6,
+ "unwindset": {"h_link_proc.0": 257, "strncpy.0": 257},
+ "unwind_reason": "link_proc is loop-free; only harness/stub loops are unwound: over the 255 possible name bytes (name_len is an 8-bit on-disk field); unwinding assertions on",
+ "timeout": 900,
+ "functions": ["lib/ext2fs/link.c:link_proc", "lib/ext2fs/dir_iterate.c:ext2fs_get_rec_len", "lib/ext2fs/dir_iterate.c:ext2fs_set_rec_len"],
+ "assumes": ["SYMBOLIC BLOCK OF 256 BYTES (blocksize argument and fs->blocksize are 256): smaller than any legal ext2 block size; link_proc and the rec_len helpers depend on the block size only through comparisons with it (and the < 65536 branch), so this is evidence parametric in the block size, not a proof for 1024/4096-byte blocks, which CBMC cannot do (every typed access at a symbolic offset costs O(block size) and the SAT problem grows ~5x per doubling: 64 B 14 s, 128 B 70 s, 256 B > 250 s per clause); pre-state case: E unused, follower not absorbable", "requested names are therefore limited to what fits (name_len <= 248); IN.namelen itself ranges over 1..255", "the entry handed to the callback satisfies what ext2fs_process_dir_block checks before calling: 4-aligned offset < blocksize-8, rec_len >= 8, multiple of 4, offset+rec_len <= blocksize, name_len+8 <= rec_len, and it is not the checksum tail (the caller does not pass DIRENT_FLAG_INCLUDE_CSUM)", "ls->namelen == strlen(ls->name) <= 255, ls->err == 0, ls->sb == fs->super, callback blocksize == fs->blocksize (block directories; inline-data directories are not covered)", "libc strncpy is an over-approximating stub in the unit: the whole block becomes arbitrary except that, at every byte position the code or the specification later reads (headers of E, of the entry behind E, of the tail slot, the frame byte k, name byte j of both entries), bytes outside dst[0..n) are unchanged and dst[j] has the ISO C value; destination range asserted to be inside the block", "without the filetype feature the type byte of the new entry is only claimed to be 0 when the reused slot's stale type byte was 0 (always the case on a filesystem that never had the feature)", "superblock feature words other than metadata_csum / filetype bits arbitrary"],
+ "native": false
+}
+*/
+/* VERIF-UNIT
+{
+ "name": "link_proc_256_c1",
+ "props": ["C10"],
+ "level": "U",
+ "tier": "thorough",
+ "harness": "h_link_proc",
+ "enforce": ["link_proc"],
+ "defines": ["LP_BS=256", "LP_CASE=1"],
+ "sources": ["lib/ext2fs/dir_iterate.c"],
+ "unwind": 6,
+ "unwindset": {"h_link_proc.0": 257, "strncpy.0": 257},
+ "unwind_reason": "link_proc is loop-free; only harness/stub loops are unwound: over the 255 possible name bytes (name_len is an 8-bit on-disk field); unwinding assertions on",
+ "timeout": 900,
+ "functions": ["lib/ext2fs/link.c:link_proc", "lib/ext2fs/dir_iterate.c:ext2fs_get_rec_len", "lib/ext2fs/dir_iterate.c:ext2fs_set_rec_len"],
+ "assumes": ["SYMBOLIC BLOCK OF 256 BYTES (blocksize argument and fs->blocksize are 256): smaller than any legal ext2 block size; link_proc and the rec_len helpers depend on the block size only through comparisons with it (and the < 65536 branch), so this is evidence parametric in the block size, not a proof for 1024/4096-byte blocks, which CBMC cannot do (every typed access at a symbolic offset costs O(block size) and the SAT problem grows ~5x per doubling: 64 B 14 s, 128 B 70 s, 256 B > 250 s per clause); pre-state case: E unused, follower absorbable", "requested names are therefore limited to what fits (name_len <= 248); IN.namelen itself ranges over 1..255", "the entry handed to the callback satisfies what ext2fs_process_dir_block checks before calling: 4-aligned offset < blocksize-8, rec_len >= 8, multiple of 4, offset+rec_len <= blocksize, name_len+8 <= rec_len, and it is not the checksum tail (the caller does not pass DIRENT_FLAG_INCLUDE_CSUM)", "ls->namelen == strlen(ls->name) <= 255, ls->err == 0, ls->sb == fs->super, callback blocksize == fs->blocksize (block directories; inline-data directories are not covered)", "libc strncpy is an over-approximating stub in the unit: the whole block becomes arbitrary except that, at every byte position the code or the specification later reads (headers of E, of the entry behind E, of the tail slot, the frame byte k, name byte j of both entries), bytes outside dst[0..n) are unchanged and dst[j] has the ISO C value; destination range asserted to be inside the block", "without the filetype feature the type byte of the new entry is only claimed to be 0 when the reused slot's stale type byte was 0 (always the case on a filesystem that never had the feature)", "superblock feature words other than metadata_csum / filetype bits arbitrary"],
+ "native": false
+}
+*/
+/* VERIF-UNIT
+{
+ "name": "link_proc_256_c2",
+ "props": ["C10"],
+ "level": "U",
+ "tier": "thorough",
+ "harness": "h_link_proc",
+ "enforce": ["link_proc"],
+ "defines": ["LP_BS=256", "LP_CASE=2"],
+ "sources": ["lib/ext2fs/dir_iterate.c"],
+ "unwind": 6,
+ "unwindset": {"h_link_proc.0": 257, "strncpy.0": 257},
+ "unwind_reason": "link_proc is loop-free; only harness/stub loops are unwound: over the 255 possible name bytes (name_len is an 8-bit on-disk field); unwinding assertions on",
+ "timeout": 900,
+ "functions": ["lib/ext2fs/link.c:link_proc", "lib/ext2fs/dir_iterate.c:ext2fs_get_rec_len", "lib/ext2fs/dir_iterate.c:ext2fs_set_rec_len"],
+ "assumes": ["SYMBOLIC BLOCK OF 256 BYTES (blocksize argument and fs->blocksize are 256): smaller than any legal ext2 block size; link_proc and the rec_len helpers depend on the block size only through comparisons with it (and the < 65536 branch), so this is evidence parametric in the block size, not a proof for 1024/4096-byte blocks, which CBMC cannot do (every typed access at a symbolic offset costs O(block size) and the SAT problem grows ~5x per doubling: 64 B 14 s, 128 B 70 s, 256 B > 250 s per clause); pre-state case: E live, follower not absorbable", "requested names are therefore limited to what fits (name_len <= 248); IN.namelen itself ranges over 1..255", "the entry handed to the callback satisfies what ext2fs_process_dir_block checks before calling: 4-aligned offset < blocksize-8, rec_len >= 8, multiple of 4, offset+rec_len <= blocksize, name_len+8 <= rec_len, and it is not the checksum tail (the caller does not pass DIRENT_FLAG_INCLUDE_CSUM)", "ls->namelen == strlen(ls->name) <= 255, ls->err == 0, ls->sb == fs->super, callback blocksize == fs->blocksize (block directories; inline-data directories are not covered)", "libc strncpy is an over-approximating stub in the unit: the whole block becomes arbitrary except that, at every byte position the code or the specification later reads (headers of E, of the entry behind E, of the tail slot, the frame byte k, name byte j of both entries), bytes outside dst[0..n) are unchanged and dst[j] has the ISO C value; destination range asserted to be inside the block", "without the filetype feature the type byte of the new entry is only claimed to be 0 when the reused slot's stale type byte was 0 (always the case on a filesystem that never had the feature)", "superblock feature words other than metadata_csum / filetype bits arbitrary"],
+ "native": false
+}
+*/
+/* VERIF-UNIT
+{
+ "name": "link_proc_256_c3",
+ "props": ["C10"],
+ "level": "U",
+ "tier": "thorough",
+ "harness": "h_link_proc",
+ "enforce": ["link_proc"],
+ "defines": ["LP_BS=256", "LP_CASE=3"],
+ "sources": ["lib/ext2fs/dir_iterate.c"],
+ "unwind": 6,
+ "unwindset": {"h_link_proc.0": 257, "strncpy.0": 257},
+ "unwind_reason": "link_proc is loop-free; only harness/stub loops are unwound: over the 255 possible name bytes (name_len is an 8-bit on-disk field); unwinding assertions on",
+ "timeout": 900,
+ "functions": ["lib/ext2fs/link.c:link_proc", "lib/ext2fs/dir_iterate.c:ext2fs_get_rec_len", "lib/ext2fs/dir_iterate.c:ext2fs_set_rec_len"],
+ "assumes": ["SYMBOLIC BLOCK OF 256 BYTES (blocksize argument and fs->blocksize are 256): smaller than any legal ext2 block size; link_proc and the rec_len helpers depend on the block size only through comparisons with it (and the < 65536 branch), so this is evidence parametric in the block size, not a proof for 1024/4096-byte blocks, which CBMC cannot do (every typed access at a symbolic offset costs O(block size) and the SAT problem grows ~5x per doubling: 64 B 14 s, 128 B 70 s, 256 B > 250 s per clause); pre-state case: E live, follower absorbable", "requested names are therefore limited to what fits (name_len <= 248); IN.namelen itself ranges over 1..255", "the entry handed to the callback satisfies what ext2fs_process_dir_block checks before calling: 4-aligned offset < blocksize-8, rec_len >= 8, multiple of 4, offset+rec_len <= blocksize, name_len+8 <= rec_len, and it is not the checksum tail (the caller does not pass DIRENT_FLAG_INCLUDE_CSUM)", "ls->namelen == strlen(ls->name) <= 255, ls->err == 0, ls->sb == fs->super, callback blocksize == fs->blocksize (block directories; inline-data directories are not covered)", "libc strncpy is an over-approximating stub in the unit: the whole block becomes arbitrary except that, at every byte position the code or the specification later reads (headers of E, of the entry behind E, of the tail slot, the frame byte k, name byte j of both entries), bytes outside dst[0..n) are unchanged and dst[j] has the ISO C value; destination range asserted to be inside the block", "without the filetype feature the type byte of the new entry is only claimed to be 0 when the reused slot's stale type byte was 0 (always the case on a filesystem that never had the feature)", "superblock feature words other than metadata_csum / filetype bits arbitrary"],
  "native": false
 }
 */
@@ -57,12 +135,10 @@
 #include "dirs_dirent.h"
 
 #ifndef LP_BS
-#define LP_BS 1024
+#define LP_BS 64
 #endif
 
-struct lp_blk { unsigned char b[LP_BS]; };	/* wrapped in a struct so that a whole block is copied / havocked by ONE assignment */
 struct in_link {
-	struct lp_blk blk;		/* the directory block as read from disk: arbitrary bytes */
 	unsigned int offset;		/* where the iterator stands */
 	unsigned char name[256];	/* requested name (NUL-terminated C string) */
 	unsigned int namelen;
@@ -81,13 +157,12 @@ struct in_link IN;
 
 #include "lib/ext2fs/link.c"
 
-static struct lp_blk BLKS __attribute__((aligned(8)));	/* the buffer the callback works on */
-#define BLKB (BLKS.b)
+static unsigned char BLKB[LP_BS] __attribute__((aligned(8)));	/* the buffer the callback works on */
 static struct struct_ext2_filsys FS;
 static struct ext2_super_block SB;
 static struct link_struct LS;
 
-#define OLDB (IN.blk.b)
+#define OLDB (BLKB)
 #define NEWB (BLKB)
 #define BS ((unsigned)LP_BS)
 #define O (IN.offset)
@@ -260,10 +335,9 @@ static int link_proc(ext2_ino_t dir, int entru, struct ext2_dir_entry *dirent, i
  * range must lie inside the block.  Native replay uses the real strncpy.
  */
 #ifndef VERIF_NATIVE
-static struct lp_blk lp_T;
 #define OBS(q) do { unsigned q_ = (q); if (q_ < BS) { \
-		if (!(q_ >= d && q_ - d < n)) __CPROVER_assume(lp_T.b[q_] == BLKB[q_]); \
-		else if (q_ - d == IN.j) __CPROVER_assume(lp_T.b[q_] == exact); } } while (0)
+		if (!(q_ >= d && q_ - d < n)) __CPROVER_assume(lp_T[q_] == BLKB[q_]); \
+		else if (q_ - d == IN.j) __CPROVER_assume(lp_T[q_] == exact); } } while (0)
 #define OBS8(q) do { OBS(q); OBS((q) + 1); OBS((q) + 2); OBS((q) + 3); OBS((q) + 4); OBS((q) + 5); OBS((q) + 6); OBS((q) + 7); } while (0)
 char *strncpy(char *dst, const char *src, size_t n)
 {
@@ -276,15 +350,14 @@ char *strncpy(char *dst, const char *src, size_t n)
 			seen = 1;
 	unsigned char exact = seen ? 0 : (unsigned char)src[IN.j];
 	unsigned p2 = O + DE_REC(BLKB, O);	/* where the specification will look for the second entry of the region */
-	struct lp_blk nd;			/* uninitialised = nondeterministic */
-	lp_T = nd;
+	unsigned char lp_T[LP_BS];		/* uninitialised = nondeterministic */
 	OBS8(O);				/* header of E */
 	OBS(O + DE_HDR + IN.j);			/* name byte j of E */
 	OBS8(p2);				/* header of the entry behind E */
 	OBS(p2 + DE_HDR + IN.j);		/* its name byte j */
 	OBS8(BS - DE_TAIL);			/* tail slot header */
 	OBS(IN.k);				/* the frame byte */
-	BLKS = lp_T;
+	__CPROVER_array_replace(BLKB, lp_T);
 	return dst;
 }
 #endif
@@ -292,6 +365,7 @@ char *strncpy(char *dst, const char *src, size_t n)
 void h_link_proc(void)
 {
 	LOAD_IN();
+	{ unsigned char nd[LP_BS]; __CPROVER_array_replace(BLKB, nd); }	/* the block as read from disk: arbitrary bytes */
 	ASSUME(lp_pre());
 	/* ls->namelen = strlen(name): no NUL inside the name */
 	for (unsigned i = 0; i < 255; i++)
@@ -304,7 +378,6 @@ void h_link_proc(void)
 	SB.s_feature_incompat = IN.sb_incompat;
 	ASSUME(IN.csum == !!(IN.sb_ro_compat & EXT4_FEATURE_RO_COMPAT_METADATA_CSUM));
 	ASSUME(IN.filetype == !!(IN.sb_incompat & EXT2_FEATURE_INCOMPAT_FILETYPE));
-	BLKS = IN.blk;
 	LS.fs = &FS;
 	LS.name = (const char *)IN.name;
 	LS.namelen = IN.namelen;
@@ -315,6 +388,14 @@ void h_link_proc(void)
 	LS.blocksize = LP_BS;
 	LS.err = 0;
 	lp_snapshot();
+#if defined(LP_CASE)
+	/* case split on the PRE-state only (the four cases are exhaustive): E free / live  x  follower absorbable / not */
+	{
+		unsigned csz = IN.csum ? DE_TAIL : 0u;
+		int absorbable = g_n0 + DE_HDR <= BS - csz && oN.ino == 0 && g_n0 + oN.rec <= BS;
+		ASSUME(((oE.ino != 0) ? 2 : 0) + (absorbable ? 1 : 0) == LP_CASE);
+	}
+#endif
 
 	int ret = link_proc(IN.dir, IN.entry, (struct ext2_dir_entry *)(BLKB + IN.offset), IN.offset, LP_BS,
 			    (char *)BLKB, &LS);
@@ -327,9 +408,18 @@ void h_link_proc(void)
 	CHECK(!(bad & V_ROOM), "ROOM: free slot with room is used, live entry with slack is split for the next callback, never linked without room");
 	CHECK(!(bad & V_TAIL), "TAIL: a well-placed checksum tail is never absorbed or overwritten");
 	CHECK(!(bad & V_FLAGS), "FLAGS: linked => CHANGED|ABORT, changed => CHANGED, error => ABORT and unchanged");
+#ifndef LP_CASE
+#define LP_CASE 4	/* all */
+#endif
+#if LP_CASE == 4 || LP_CASE < 2
 	if (LS.done > (int)IN.done) REACH("linked");
+#endif
+#if LP_CASE == 4 || LP_CASE >= 2
 	if (!IN.done && !LS.done && ret == DIRENT_CHANGED && oE.ino != 0 && DE_REC(NEWB, O) < oE.rec) REACH("split");
+#endif
+#if LP_CASE == 4 || (LP_CASE & 1)
 	if (DE_REC(NEWB, O) > oE.rec) REACH("absorbed");
 	if (LS.err) REACH("error");
+#endif
 	REACH("end");
 }
